@@ -271,6 +271,52 @@ Proof.
     pose proof pc_bounds. unfold address. change A64C.address1 with 8.
     split; [lia|]. split; [lia|]. rewrite Z.mul_comm. apply Z.mod_mul. lia.
 Qed.
+(* the same lists as data: (backup register, saved register) and (saved register, stack offset) *)
+Definition backup_pairs : list (N * N) := map (fun or_ : N * N => (fb + fst or_, snd or_)%N) (indexed 0 (firstn used regs)).
+Definition push_cells : list (N * Z) :=
+  map (fun or_ : N * N => (snd or_, address (Z.of_nat pc - 1 - Z.of_N (fst or_)))) (indexed 0 (skipn used regs)).
+Lemma movs_out_pairs : movs_out = map (fun p : N * N => MOVR (X (fst p)) (X (snd p))) backup_pairs.
+Proof. unfold movs_out, backup_pairs. rewrite map_map. reflexivity. Qed.
+Lemma movs_back_pairs : movs_back = map (fun p : N * N => MOVR (X (snd p)) (X (fst p))) backup_pairs.
+Proof. unfold movs_back, backup_pairs. rewrite map_map. reflexivity. Qed.
+Lemma strs_cells : strs = map (fun p : N * Z => STR (X (fst p)) SP (snd p)) push_cells.
+Proof. unfold strs, push_cells. rewrite map_map. reflexivity. Qed.
+Lemma ldrs_cells : ldrs = map (fun p : N * Z => LDR (X (fst p)) SP (snd p)) (rev push_cells).
+Proof. unfold ldrs, push_cells. rewrite <- map_rev, map_map. reflexivity. Qed.
+Lemma backup_pairs_snd : map snd backup_pairs = firstn used regs.
+Proof. unfold backup_pairs. rewrite map_map. cbn [snd]. apply indexed_snd. Qed.
+Lemma push_cells_fst : map fst push_cells = skipn used regs.
+Proof. unfold push_cells. rewrite map_map. cbn [fst]. apply indexed_snd. Qed.
+Lemma indexed_fst_nodup {X} (l : list X) : forall o, NoDup (map fst (indexed o l)).
+Proof.
+  induction l as [|x l IH]; intros o; cbn; constructor; [|apply IH].
+  intros Hin. apply in_map_iff in Hin as ([i y] & E & Hin). cbn in E; subst i. apply indexed_in in Hin. lia.
+Qed.
+Lemma backup_pairs_range d r : In (d, r) backup_pairs -> (fb <= d < fb + N.of_nat used)%N.
+Proof.
+  unfold backup_pairs. intros H. apply in_map_iff in H as ([o x] & E & Hin). inversion E; subst. cbn [fst].
+  apply indexed_in in Hin as [_ Hn]. rewrite N.sub_0_r in Hn.
+  assert (N.to_nat o < used)%nat by (rewrite <- firstn_used_length; apply nth_error_Some; congruence). lia.
+Qed.
+Lemma backup_pairs_nodup : NoDup (map fst backup_pairs).
+Proof.
+  unfold backup_pairs. rewrite map_map. cbn [fst].
+  pose proof (indexed_fst_nodup (firstn used regs) 0%N) as ND. revert ND.
+  generalize (indexed 0 (firstn used regs)). intros l ND.
+  induction l as [|[i x] l IH]; cbn [map fst] in *; constructor; inversion ND as [|? ? Hn ND']; subst; auto.
+  intros Hin. apply Hn. apply in_map_iff in Hin as ([j y] & E & Hin). cbn [fst] in E.
+  apply in_map_iff. exists (j, y). split; [cbn [fst]; lia|exact Hin].
+Qed.
+Lemma push_cells_offsets : map snd push_cells = flat_map str_offset strs.
+Proof.
+  unfold strs, push_cells. rewrite map_map. cbn [snd].
+  induction (indexed 0 (skipn used regs)) as [|p l IH]; [reflexivity|]. cbn [map flat_map]. rewrite <- IH. reflexivity.
+Qed.
+Lemma push_cells_nodup : NoDup (map snd push_cells).
+Proof. rewrite push_cells_offsets. destruct restore_mirrors_save as (? & ? & _ & _ & _ & _ & _ & _ & H & _). exact H. Qed.
+Lemma push_cells_range :
+  Forall (fun i => 0 <= i /\ i + 8 <= address (Z.of_nat pc) /\ i mod 8 = 0) (map snd push_cells).
+Proof. rewrite push_cells_offsets. destruct restore_mirrors_save as (? & ? & _ & _ & _ & _ & _ & _ & _ & H). exact H. Qed.
 End SaveRestore.
 
 (* ---------- which registers are saved: caller_save_registers_info ---------- *)
@@ -348,6 +394,48 @@ Proof.
     rewrite firstn_length in *. lia. }
   change CALLER_SAVE_FIRST with 4%N in Hr.
   destruct (bchi b); cbn [In] in Hr; lia.
+Qed.
+Lemma ctx_regs_nodup context : NoDup (ctx_regs context).
+Proof.
+  unfold ctx_regs. change CALLER_SAVE_FIRST with 4%N.
+  assert (G : forall (l : list binding) o,
+             NoDup (flat_map (fun ob : N * binding => match bchi (snd ob) with
+                                                   | Ext => [4 + 2 * fst ob + 1]
+                                                   | _ => [4 + 2 * fst ob; 4 + 2 * fst ob + 1] end)%N (indexed o l)) /\
+             forall r, In r (flat_map (fun ob : N * binding => match bchi (snd ob) with
+                                                   | Ext => [4 + 2 * fst ob + 1]
+                                                   | _ => [4 + 2 * fst ob; 4 + 2 * fst ob + 1] end)%N (indexed o l)) -> (4 + 2 * o <= r)%N).
+  { induction l as [|b l IH]; intros o; cbn [indexed flat_map]; [split; [constructor|intros r []]|].
+    destruct (IH (o + 1)%N) as [ND LB]. cbn [fst snd].
+    split.
+    - destruct (bchi b); cbn [app]; repeat constructor; auto; cbn [In]; intros H;
+        repeat match goal with H : _ \/ _ |- _ => destruct H as [H|H] end; try lia;
+        try (apply LB in H; lia).
+    - intros r H. apply in_app_or in H as [H|H]; [|apply LB in H; lia].
+      destruct (bchi b); cbn [In] in H; lia. }
+  apply G.
+Qed.
+Theorem saved_nodup context : NoDup (snd (caller_save_registers_info context)).
+Proof.
+  rewrite info_shape. cbn [snd app].
+  pose proof (ctx_regs_nodup context) as ND. pose proof (ctx_regs_range context) as RG.
+  destruct (N.leb _ _); cbn [app]; repeat constructor; auto; cbn [In]; intros H;
+    repeat match goal with H : _ \/ _ |- _ => destruct H as [H|H] end; try lia; try discriminate;
+    try (apply RG in H; lia).
+Qed.
+Lemma saved_length context : (List.length (snd (caller_save_registers_info context)) <= 17)%nat.
+Proof.
+  rewrite info_shape. cbn [snd]. rewrite !app_length.
+  assert (List.length (ctx_regs context) <= 14)%nat.
+  { unfold ctx_regs. assert (L : (List.length (indexed 0 (firstn 7 context)) <= 7)%nat) by (rewrite indexed_length, firstn_length; lia).
+    revert L. generalize (indexed 0 (firstn 7 context)). intros l. 
+    assert (G : forall l : list (N * binding),
+              (List.length (flat_map (fun ob : N * binding => match bchi (snd ob) with
+                 | Ext => [CALLER_SAVE_FIRST + 2 * fst ob + 1]
+                 | _ => [CALLER_SAVE_FIRST + 2 * fst ob; CALLER_SAVE_FIRST + 2 * fst ob + 1] end)%N l) <= 2 * List.length l)%nat).
+    { induction l0 as [|[o b] l0 IH]; cbn [flat_map List.length]; [lia|]. rewrite app_length. cbn [snd]. destruct (bchi b); cbn [List.length]; lia. }
+    specialize (G l). lia. }
+  destruct (N.leb _ _); cbn [List.length]; lia.
 Qed.
 Theorem saved_link_register_iff context :
   In 29%N (snd (caller_save_registers_info context)) <->
